@@ -326,9 +326,10 @@ cThorough == <<
   \* three slots
   U({"chain", "dia"}, {"S"}, {"n"}, 3, <<{"parents"}, {"childs"}, {"childs", "loose2"}>>, "few"),
   \* include renumbering in an intermediate file (first of two / three includes dropped), base services there too
-  U({"mid", "mid3"}, {"S", "SB"}, {"n", "e"}, 2, <<{"parents"}, {"child"}>>, "few"),
+  U({"mid", "mid3"}, {"S"}, {"n"}, 2, <<{"parents"}, {"child"}>>, "few"),
+  U({"mid"}, {"SB"}, {"n", "e"}, 2, <<{"parents"}, {"childs"}>>, "few"),
   U({"mid3"}, {"S"}, {"n"}, 3, <<{"parents"}, {"childs"}, {"childs"}>>, "few"),
-  U({"mid", "mid3"}, {"S", "SB"}, {"n", "c"}, 1, <<{"dflt"}>>, "all") >>
+  U({"mid", "mid3"}, {"S", "SB"}, {"n", "c"}, 1, <<{"dflt"}>>, "few") >>
 
 \* Design-level results exported with every case: bok (layer B's result is Allowed by layer A -- the refinement
 \* B => A; a FALSE is a candidate defect that counts only when the real code shows it too) and asat (layer A allows
